@@ -47,7 +47,9 @@ mtime differs from the current one and was never used for this file before.
 """
 import re
 
-EDGE_KINDS = ('import', 'import_as', 'from_mod', 'from', 'star')
+EDGE_KINDS = ('import', 'import_as', 'from_mod', 'from', 'star', 'attr_sub')
+# 'attr_sub': the importer does `import pkg` and reaches the sub-module e['to'] ONLY by attribute access on the
+# package object (pkg.sub.K as a base class, as the source of an instance attribute, as a plain read)
 MODULE_ACCESS = ('import', 'import_as', 'from_mod')
 
 
@@ -142,6 +144,12 @@ def visible(spec, mid, _seen=None):
                     out[n] = w
     out[cls_name(spec, mid)] = ('cls', mid)
     out[var_name(spec, mid)] = ('var', mid)
+    for e in m['edges']:
+        if e['kind'] == 'attr_sub':
+            st = stem(spec, mid)
+            out['KA_' + st] = ('sub_cls', e['to'])
+            out['KB_' + st] = ('sub_inst', e['to'])
+            out['ref_' + st] = ('sub_ref', e['to'])
     return out
 
 
@@ -149,6 +157,8 @@ def import_line(spec, mid, e):
     m = spec['modules'][mid]
     t = spec['modules'][e['to']]
     k = e['kind']
+    if k == 'attr_sub':
+        return 'import %s' % stem(spec, t['pkg'])
     if k == 'import':
         return 'import %s' % dotted(spec, e['to'])
     if k == 'import_as':
@@ -181,6 +191,18 @@ def render(spec, mid, version, broken=False):
               '%s_s = 1' % st,
               '%s_v%d = %d' % (st, version % 3, version),
               '_%s_private = 0' % st]
+    for e in m['edges']:
+        if e['kind'] == 'attr_sub':
+            ref = '%s.K_%s' % (dotted(spec, e['to']), stem(spec, e['to']))
+            lines += ['',
+                      'class KA_%s(%s):' % (st, ref),
+                      '    own_%s = 1' % st,
+                      '',
+                      'class KB_%s(object):' % st,
+                      '    def __init__(self):',
+                      '        self.helper = %s()' % ref,
+                      '',
+                      'ref_%s = %s' % (st, ref)]
     for u in m.get('uses', ()):
         lines.append(u)
     if broken:
@@ -210,7 +232,7 @@ def successors(spec, mid):
         out.append((e['to'], e['kind']))
     for e in spec['modules'][mid]['edges']:
         t = spec['modules'][e['to']]
-        if e['kind'] == 'import' and t['pkg'] and not t['init'] and t['pkg'] != mid:
+        if e['kind'] in ('import', 'attr_sub') and t['pkg'] and not t['init'] and t['pkg'] != mid:
             if not any(b == t['pkg'] for b, _ in out):
                 out.append((t['pkg'], 'import'))
     # a relative import resolves only if the directory is a package: dependency on its __init__
@@ -285,11 +307,26 @@ def build_probes(spec, max_depth=3):
             if kind == 'location' and expr not in uses:
                 uses.append(expr)
 
+        def sub(full, what, t, path):
+            # names built on a sub-module t that their module reaches only as pkg.t.K_t
+            inherited = 'f_%s_s' % stem(spec, t)
+            if what == 'sub_cls':
+                add('assist-attr', full, path + [t])
+                add('location', full + '.' + inherited, path + [t])
+            elif what == 'sub_inst':
+                add('assist-attr', full + '().helper', path + [t])
+                add('location', full + '().helper.' + inherited, path + [t])
+            else:
+                add('assist-attr', full, path + [t])
+                add('location', full, path + [t])
+
         def walk(expr, target, depth, path):
             add('assist-attr', expr, path)
             vis = visible(spec, target)
             for n, (what, owner) in sorted(vis.items()):
-                if what == 'cls':
+                if what.startswith('sub_'):
+                    sub(expr + '.' + n, what, owner, path)
+                elif what == 'cls':
                     add('location', expr + '.' + n, path + [owner] if owner != target else path)
                     add('assist-attr', expr + '.' + n, path + [owner] if owner != target else path)
                 elif what == 'var' and owner != target:
@@ -313,7 +350,9 @@ def build_probes(spec, max_depth=3):
                 for n in names:
                     what, owner = tv.get(n, ('var', e['to']))
                     path = [mid, e['to']]
-                    if what == 'mod':
+                    if what.startswith('sub_'):
+                        sub(n, what, owner, path)
+                    elif what == 'mod':
                         walk(n, owner, 2, path)
                     elif what == 'cls':
                         add('location', n, path)
@@ -412,6 +451,18 @@ def chain_spec(variant, tag):
         spec = {'tag': T, 'modules': mods, 'order': ['m', 'a', 'w']}
         spec['probes'] = build_probes(spec)
         return spec
+    elif variant == 'A':
+        # a sub-module reached only by attribute access on its package: a does `import p` and uses p.t.K_t as a
+        # base class, as an instance attribute source and as a plain read; p/t.py is absent at the start
+        mods = {
+            'm': _mod(0, [_e('import', 'a')], main=True),
+            'a': _mod(1, [_e('attr_sub', 't')]),
+            'p': _mod(2, pkg='p', init=True),
+            't': _mod(3, pkg='p', present=False),
+        }
+        spec = {'tag': T, 'modules': mods, 'order': ['m', 'a', 'p', 't']}
+        spec['probes'] = build_probes(spec)
+        return spec
     elif variant == 'P':
         # package creation: the directory p has modules but no __init__.py at the start; the requested
         # file r lives in it and uses relative imports only
@@ -445,6 +496,12 @@ def chain_alphabet(variant, spec):
         mods = [['rewrite', 'a'], ['touch', 'a'], ['garble', 'w'], ['break', 'w'], ['put', 'w']]
         bare = req('assist-bare', None)
         reqs = [bare, req('assist-attr', 'K_%sa' % T), [bare[0], bare[1], 'lookup', 'w']]
+        return mods, reqs
+    if variant == 'A':
+        a = T + 'a'
+        mods = [['put', 't'], ['rewrite', 'a'], ['rewrite', 'p']]
+        reqs = [req('assist-attr', '%s.KA_%s' % (a, a)), req('assist-attr', '%s.KB_%s().helper' % (a, a)),
+                req('location', '%s.KA_%s.f_%st_s' % (a, a, T))]
         return mods, reqs
     if variant == 'P':
         h = T + 'h'
@@ -596,7 +653,7 @@ def random_spec(rng, tag):
                 e['names'] = rng.sample(vis, k)
     # a sub-module, absent at the start, named like an attribute that a package __init__ defines and that
     # somebody from-imports / star-imports from the package
-    feature = rng.choice(('shadow', 'shadow', 'inpkg', 'inpkg', 'inpkg', 'none'))
+    feature = rng.choice(('shadow', 'shadow', 'inpkg', 'inpkg', 'attrsub', 'attrsub', 'attrsub', 'none'))
     if len(mods) <= 5 and pkgs and feature == 'shadow':
         cands = []
         for x in sorted(mods):
@@ -611,6 +668,17 @@ def random_spec(rng, tag):
                 e['names'].append(attr)
             mods['s'] = _mod(mods[pk]['level'] + 1, pkg=pk, present=False, shadow=attr)
             spec['order'].append('s')
+    # a sub-module that one module reaches ONLY by attribute access on the imported package (import pkg;
+    # pkg.t.K_t as base class / instance source / plain read); mostly absent at the start, sometimes present (control)
+    if len(mods) <= 5 and pkgs and feature == 'attrsub':
+        pk = rng.choice(pkgs)
+        users = [x for x in sorted(mods) if not mods[x]['main'] and not mods[x]['init'] and mods[x]['present']
+                 and mods[x]['pkg'] != pk and not any(e['to'] == pk for e in mods[x]['edges'])]
+        if users:
+            x = rng.choice(users)
+            mods['t'] = _mod(mods[x]['level'] + 1, pkg=pk, present=rng.random() < 0.35)
+            mods[x]['edges'].append(_e('attr_sub', 't'))
+            spec['order'].append('t')
     # a requested file INSIDE a package directory that uses relative imports only; in most cases the
     # directory is not a package yet (its __init__.py is absent at the start and created later)
     if len(mods) <= 5 and pkgs and feature == 'inpkg':
